@@ -66,6 +66,10 @@ namespace bxdecay0 {
         if (!fin) {
           throw std::runtime_error("bxdecay0::event_reader::load_next_event: Invalid/corrupted particle format!");
         }
+        if (partCode != GAMMA and partCode != POSITRON and partCode != ELECTRON
+            and partCode != NEUTRON and partCode != PROTON and partCode != ALPHA) {
+          throw std::runtime_error("bxdecay0::event_reader::load_next_event: Invalid/corrupted particle code!");
+        }
         particle part;
         part.set_code(static_cast<particle_code>(partCode));
         part.set_time(partTime);
@@ -321,6 +325,9 @@ namespace bxdecay0 {
         }
       }
     } // while
+    if (! evt_.is_valid()) {
+      throw std::runtime_error("bxdecay0::event_reader::load_next_event: Invalid/corrupted event!");
+    }
     _pimpl_->loaded_event_counter++;
     if (_pimpl_->begin_event_file_index < 0) {
       _pimpl_->begin_event_file_index = _pimpl_->current_file_index;
